@@ -92,7 +92,7 @@ func classifyPanic(se string) (msg, site string, harness bool) {
 		if strings.Contains(f, "/zverif/") || strings.Contains(f, "internal/simhook") {
 			continue
 		}
-		frames = append(frames, strings.TrimPrefix(f, "github.com/markusressel/fan2go/"))
+		frames = append(frames, strings.TrimSuffix(strings.TrimPrefix(f, "github.com/markusressel/fan2go/"), "("))
 	}
 	if len(frames) == 0 {
 		return msg, "", true
@@ -243,5 +243,5 @@ func accumulate(res *check.Result, co *childOut) {
 
 var _ = world.IntP
 
-var repoFrameRe = regexp.MustCompile(`github\.com/markusressel/fan2go/(internal|cmd)[^\s(]*`)
+var repoFrameRe = regexp.MustCompile(`github\.com/markusressel/fan2go/(?:internal|cmd)[^\s]*\(`)
 var goroutineRe = regexp.MustCompile(`(?m)^goroutine \d+ `)
